@@ -43,17 +43,17 @@ HOOK_COMMITS = ["a570d77", "892fb38", "f85b010", "cff13f8", "e658946", "e9ed0c9"
 
 prop("C04", "exploration",
      "lifecycle world: 1-2 real requestors and a real responder, 1-3 requests, per request a scripted environment (request hook accept/terminate/pause/reject, block hook pause/error at block k, requestor response-hook error, requestor block-hook pause/error) and up to two caller/operator actions (context cancel, Cancel API, pause/unpause on either side, updates) enabled from a drawn step; fault family adds send failures, lost acks, connect failures, disconnects, store read errors and small retry counts; after heal every paused exchange is unpaused, then every open request is cancelled by its caller and drained; distinct = distinct trace hash",
-     _b(1500, 90, 60000, 1500), probes=["act:ctxcancel", "act:apicancel", "act:pause"])
+     _b(1500, 90, 60000, 1500), lock_yield_files=["messagequeue/messagequeue.go", "responsemanager/responseassembler/responseassembler.go", "responsemanager/responseassembler/peerlinktracker.go", "peermanager/peermanager.go", "notifications/publisher.go", "allocator/allocator.go"], probes=["act:ctxcancel", "act:apicancel", "act:pause"])
 prop("C05", "exploration",
      "same lifecycle world without requestor-side pause; oracle over the responder's completed / cancelled / network-error listeners, PeerState, Stats and ConnManager protect/unprotect for every request the responder's request hook saw",
-     _b(1500, 90, 60000, 1500), probes=["act:bcancel", "act:bpause"])
+     _b(1500, 90, 60000, 1500), lock_yield_files=["messagequeue/messagequeue.go", "responsemanager/responseassembler/responseassembler.go", "responsemanager/responseassembler/peerlinktracker.go", "peermanager/peermanager.go", "notifications/publisher.go", "allocator/allocator.go"], probes=["act:bcancel", "act:bpause"])
 prop("C23", "exploration",
      "same lifecycle world; at every quiescent step at which no goroutine of the node is held at one of the simulator's internal yields, PeerState(...) of every node is compared with its task queue through Diagnostics(); Stats() must be zero at the end",
-     _b(1500, 90, 60000, 1500), probes=["c23-peerstate-compared"])
+     _b(1500, 90, 60000, 1500), lock_yield_files=["messagequeue/messagequeue.go", "responsemanager/responseassembler/responseassembler.go", "responsemanager/responseassembler/peerlinktracker.go", "peermanager/peermanager.go", "notifications/publisher.go", "allocator/allocator.go"], probes=["c23-peerstate-compared"])
 
 prop("C06", "fault_enumeration",
      "the C02 world (generated DAG, selector, 4-way store split, real requestor and responder) plus one pause and one resume: side in {requestor, responder} x mechanism in {block hook at block index 1..10, API call from step 0..80} x resume delay 0..30 steps, in two families kept apart: quiet (resume offered only when nothing is in flight) and racing (resume at any time); compared with the uninterrupted reference traversal; wire monitor for block data while paused; distinct = distinct trace hash",
-     _b(1500, 90, 60000, 1500), probes=["c06-resume:requestor/hook", "c06-resume:requestor/api", "c06-resume:responder/hook", "c06-resume:responder/api"],
+     _b(1500, 90, 60000, 1500), lock_yield_files=["taskqueue/taskqueue.go#TaskDone"], probes=["c06-resume:requestor/hook", "c06-resume:requestor/api", "c06-resume:responder/hook", "c06-resume:responder/api"],
      technique="deterministic simulation; pause point, side and mechanism enumerated over runs, message timing by seeded schedules; reference-traversal oracle")
 prop("C20", "exploration",
      "2-4 concurrent requests from one real requestor to one real responder over one generated DAG with heavy sharing (roots drawn among its dag-cbor blocks), default dedup scope, 4-way store split; per request the delivered nodes must contain, in order, everything the request delivers when run alone and nothing outside a traversal over the union of both stores; distinct = distinct trace hash",
@@ -85,15 +85,17 @@ prop("C01", "exploration",
      _b(1200, 90, 50000, 1200), probes=["c01-blocks-stored", "c01-complete-delivery", "c01-incorrect-response-detected", "c01-resumed-against-adversary"])
 
 prop("C13", "exploration",
-     "component harness: the real allocator.Allocator driven through generated histories (5-45 operations) of allocate (amounts 1,2,3,5 units and one above the per-peer limit) / release (also more than held) / release-peer by 2-4 peers under drawn total and per-peer limits, compared after every operation with an executable model written from the property statement: limits, Stats(), AllocatedForPeer, pending bytes and peers, all zero once everything is released; operations are atomic under the allocator's lock so histories are sequential and the comparison is exact; distinct = distinct trace hash (history + limits)",
-     _b(3000, 60, 200000, 900), technique="seeded operation histories against an executable reference model (real component, no stubs)")
+     "component harness: the real allocator.Allocator driven through generated histories (5-45 operations) of allocate (amounts 1,2,3,5 units and one above the per-peer limit) / release (also more than held) / release-peer by 2-4 peers under drawn total and per-peer limits, compared after every operation with an executable model written from the property statement: limits, Stats(), AllocatedForPeer, pending bytes and peers, all zero once everything is released; operations are atomic under the allocator's lock so histories are sequential and the comparison is exact; distinct = distinct trace hash (history + limits); second family (every other run): 2-3 callers, each a goroutine with a script of its own (allocate, release, release-peer, Stats, AllocatedForPeer over 1-3 peers), scheduled at operation starts and - lock-yield build of allocator/allocator.go - before every lock acquisition inside the allocator; the recorded history (invoke/return stamped with a global event counter) plus a last observation of every allocation's fate is checked for linearizability against the same model with porcupine (Illegal = violation, Unknown = inconclusive, counted)",
+     _b(3000, 60, 200000, 900), technique="seeded operation histories against an executable reference model (real component, no stubs); concurrent callers over a lock-yield build, linearizability by porcupine",
+     probes=["alloc-calls-overlapped-inside-the-allocator"], lock_yield_files=["allocator/allocator.go"])
 prop("C14", "exploration",
-     "same harness as C13; after every operation the state of every result channel handed out so far (granted / failed / not yet) is compared with the model's prediction: immediate grant iff it fits both limits and the peer has nothing waiting; per-peer FIFO; earliest-requested head that fits its own peer's limit first; stop when it does not fit the total; release-peer fails all of that peer's waiters at once",
-     _b(3000, 60, 200000, 900), technique="seeded operation histories against an executable reference model (real component, no stubs)")
+     "same harness as C13; after every operation the state of every result channel handed out so far (granted / failed / not yet) is compared with the model's prediction: immediate grant iff it fits both limits and the peer has nothing waiting; per-peer FIFO; earliest-requested head that fits its own peer's limit first; stop when it does not fit the total; release-peer fails all of that peer's waiters at once; second family (every other run): 2-3 callers, each a goroutine with a script of its own (allocate, release, release-peer, Stats, AllocatedForPeer over 1-3 peers), scheduled at operation starts and - lock-yield build of allocator/allocator.go - before every lock acquisition inside the allocator; the recorded history (invoke/return stamped with a global event counter) plus a last observation of every allocation's fate is checked for linearizability against the same model with porcupine (Illegal = violation, Unknown = inconclusive, counted)",
+     _b(3000, 60, 200000, 900), technique="seeded operation histories against an executable reference model (real component, no stubs); concurrent callers over a lock-yield build, linearizability by porcupine",
+     probes=["alloc-calls-overlapped-inside-the-allocator"], lock_yield_files=["allocator/allocator.go"])
 
 prop("C18", "exploration",
      "component harness: the real notifications publisher with 2-4 topics and 2-4 recording subscribers whose OnNext/OnClose park at scheduler gates (a slow subscriber lets commands pile up behind it); generated histories of 5-40 subscribe / publish / unsubscribe / close-topic / shutdown calls; every subscriber's per-topic sequence of events and end-of-subscription notices is compared with an executable model evaluated over the issue order; distinct = distinct trace hash",
-     _b(3000, 60, 200000, 900), technique="seeded operation histories and callback schedules against an executable reference model (real component; subscribers are stubs)")
+     _b(3000, 60, 200000, 900), probes=["c18-concurrent-subscription-checked"], lock_yield_files=["notifications/publisher.go"], technique="seeded operation histories and callback schedules against an executable reference model (real component; subscribers are stubs)")
 
 prop("C19", "exploration",
      "component harness: the real response assembler (peerLinkTracker + linktracker + responseBuilder) driven through ResponseStream transactions with a capturing message handler; generated histories (10-60 operations) interleave link traversals (6 CIDs, present or missing) of 2-5 requests of one peer with dedup-key assignments (two keys and the default scope), ignore lists, skip counts, FinishRequest and ClearRequest, then one later request that re-traverses everything; each send decision, block index and completeness status is compared with an executable model written from the statement; second family (every other run): 2-4 requests each served by a goroutine of its own, the scheduler choosing when each operation starts and - the test binary of this property is built against a scratch copy of /repo in which tools/lockyield has put a scheduling point before every lock acquisition of the tracker's files - where inside the tracker it is overtaken; two traversals of one block that are both told to send while neither request has begun to finish are a violation; distinct = distinct trace hash",
@@ -103,11 +105,11 @@ prop("C19", "exploration",
 
 _MQ = "component world: the real message queue, peer manager, allocator and publisher over the simulated network (real libp2p_impl.go codec and stream handling, scripted receiving peers); 2-11 queued operations (blocks of 100-300 B and occasionally 300 KiB so that two do not fit one message, extension data, status codes) for 1-3 requests of 1-2 peers, each operation carrying a unique marker so that reports can be attributed; Connected/Disconnected notifications in drawn number and order; send faults (fail, lost ack, stall until the write deadline), connect failures, 1-3 retries; a random subset of seven internal yield points (after the reservation, after the build, on entering the done arm, before the queue exits, before Shutdown in Disconnected, in the GetProcess miss window, between GetProcess and the call) is active per run"
 prop("C15", "fault_enumeration", _MQ + "; oracle: once all queues are idle AllocatedForPeer and Stats are zero; distinct = distinct trace hash",
-     _b(2000, 60, 100000, 1200), probes=["mq-conn", "mq-disc", "send-stalled"], technique="deterministic simulation of the real component with seeded fault placement and internal yield points")
+     _b(2000, 60, 100000, 1200), lock_yield_files=["peermanager/peermanager.go", "messagequeue/messagequeue.go", "allocator/allocator.go", "notifications/publisher.go"], probes=["mq-conn", "mq-disc", "send-stalled"], technique="deterministic simulation of the real component with seeded fault placement and internal yield points")
 prop("C16", "exploration", _MQ + "; oracle: every operation built into a message is listed in exactly one Sent or Error report; per attached party and message at most one Queued, exactly one Sent/Error, then exactly one close; distinct = distinct trace hash",
-     _b(2000, 60, 100000, 1200), probes=["mq-conn", "mq-disc"], technique="deterministic simulation of the real component with seeded fault placement and internal yield points")
+     _b(2000, 60, 100000, 1200), lock_yield_files=["peermanager/peermanager.go", "messagequeue/messagequeue.go", "allocator/allocator.go", "notifications/publisher.go"], probes=["mq-conn", "mq-disc"], technique="deterministic simulation of the real component with seeded fault placement and internal yield points")
 prop("C17", "exploration", _MQ + "; oracle: never two live queue goroutines for one peer (observation hook at start and exit), none alive after the last disconnect, blocks reach the wire in build order; distinct = distinct trace hash",
-     _b(2000, 60, 100000, 1200), probes=["mq-conn", "mq-disc", "c17-message-order-compared"], technique="deterministic simulation of the real component with seeded fault placement and internal yield points")
+     _b(2000, 60, 100000, 1200), lock_yield_files=["peermanager/peermanager.go", "messagequeue/messagequeue.go", "allocator/allocator.go", "notifications/publisher.go"], probes=["mq-conn", "mq-disc", "c17-message-order-compared"], technique="deterministic simulation of the real component with seeded fault placement and internal yield points")
 
 prop("C11", "exploration",
      "weak fit, stated as such: the verdict is a function of the message, the simulator adds stream behaviour. Two scripted peers exchange 1-6 generated well-formed messages per run on one stream through the real libp2p_impl.go / v2 codec with fragmented delivery (arbitrary byte counts per read): new/cancel/update requests with zero, negative and extreme priorities, generated selectors and 0-3 extensions (nil, null, scalars, bytes, links, nested maps and lists), responses with every defined status, every link action and 0-4 metadata entries, blocks under CIDv0/dag-pb, identity, sha2-512, dag-cbor and raw prefixes; decoded messages are compared field by field and in order with what was sent; the three extension codecs are round-tripped on generated values; distinct = distinct trace hash",
